@@ -83,6 +83,21 @@ Agg(fn, x) ==
             IF \E i \in 1..Len(rs) : IsBad(rs[i]) THEN Err ELSE L(rs)
        ELSE Agg1(fn, x.v)
 
+\* stddev(): the reference says "standard deviation" and no more (sample or population?).  What every definition agrees on is
+\* all the specification states: fewer than two values, or values that are all equal, deviate by 0; anything else is outside
+\* the model ("oou": never judged).  Like the other aggregates it maps over the groups of by().
+Std1(vs) ==
+  IF \E i \in 1..Len(vs) : ~IsNumLike(vs[i]) THEN Err
+  ELSE IF Len(vs) < 2 \/ \A i \in 1..Len(vs) : NumEq(AsNum(vs[i]), AsNum(vs[1])) THEN Int_(0)
+  ELSE Oou
+StdAgg(x) ==
+  IF x.t # "list" THEN Err
+  ELSE IF x.v # <<>> /\ x.v[1].t = "list"
+       THEN LET rs == [i \in 1..Len(x.v) |-> IF x.v[i].t = "list" THEN Std1(x.v[i].v) ELSE Err] IN
+            IF \E i \in 1..Len(rs) : rs[i].t = "err" THEN Err
+            ELSE IF \E i \in 1..Len(rs) : rs[i].t = "oou" THEN Oou ELSE L(rs)
+       ELSE Std1(x.v)
+
 \* --------------------------------------------------------------- evaluator --
 \* ctx: [m (merchant), vars (name -> value), period ([month, year])]
 RECURSIVE EvalV(_, _)
@@ -157,7 +172,7 @@ EvalV(node, ctx) ==
          ELSE LET args == a.v
                   n == Len(args) IN
            CASE node.fn \in {"sum", "count", "avg", "max", "min"} -> IF n # 1 THEN Err ELSE Agg(node.fn, args[1])
-             [] node.fn = "stddev" -> IF n # 1 THEN Err ELSE Oou               \* sample or population: not documented
+             [] node.fn = "stddev" -> IF n # 1 THEN Err ELSE StdAgg(args[1])
              [] node.fn = "abs" -> IF n # 1 THEN Err ELSE IF args[1].t = "cv" THEN Oou
                                    ELSE IF IsNumLike(args[1]) THEN LET x == AsNum(args[1]) IN Num(AbsI(x.n), x.d, x.f) ELSE Err
              [] node.fn = "round" -> IF n = 1 /\ IsNumLike(args[1]) /\ AsNum(args[1]).d = 1 /\ ~AsNum(args[1]).f THEN AsNum(args[1])
